@@ -675,6 +675,77 @@ fn gen_call(rng: &mut Rng, d: &Def, count: usize, n_packs: usize, form_pick: usi
     Call { pre, depth, form, args }
 }
 
+
+// ------------------------------------------------------------------------------------------------
+// duplicated argument names (bind family, `dup` cases)
+//
+// A name used twice in one argument list — in any pair of positions: top level, nested tuple (any
+// depth), `rest...`, `{x}` entry, `{k as x}` rebind, variadic `xs...`, with or without defaults — must
+// be a compile error (F-C02-11, fixed 7adfc01; never a panic, never a silently chosen binding).
+// `_` / `_name` may repeat freely.
+
+fn pat_positions(p: &Pat, top: bool, out: &mut Vec<(u32, &'static str)>) {
+    match p {
+        Pat::Id(n) => out.push((*n, if top { "top" } else { "nested" })),
+        Pat::Pk(Some(n)) => out.push((*n, "rest")),
+        Pat::Tup(ps) => ps.iter().for_each(|q| pat_positions(q, false, out)),
+        Pat::Map(es) => es.iter().for_each(|e| match e {
+            Entry::Short(n) => out.push((*n, "map-short")),
+            Entry::As(_, n) => out.push((*n, "map-as")),
+            _ => {}
+        }),
+        _ => {}
+    }
+}
+
+fn rename_pat(p: &mut Pat, from: u32, to: u32) {
+    match p {
+        Pat::Id(n) | Pat::Pk(Some(n)) => {
+            if *n == from {
+                *n = to;
+            }
+        }
+        Pat::Tup(ps) => ps.iter_mut().for_each(|q| rename_pat(q, from, to)),
+        Pat::Map(es) => es.iter_mut().for_each(|e| match e {
+            Entry::Short(n) | Entry::As(_, n) => {
+                if *n == from {
+                    *n = to;
+                }
+            }
+            _ => {}
+        }),
+        _ => {}
+    }
+}
+
+/// the definition with the name at position `j` replaced by the name at position `i`;
+/// returns the kinds of the two positions
+fn duplicate_names(d: &Def, i: usize, j: usize) -> Option<(Def, String)> {
+    let mut pos: Vec<(u32, &'static str)> = vec![];
+    let n = d.params.len();
+    for (k, p) in d.params.iter().enumerate() {
+        let before = pos.len();
+        pat_positions(&p.pat, true, &mut pos);
+        if d.variadic && k == n - 1 {
+            for q in pos[before..].iter_mut() {
+                q.1 = "variadic";
+            }
+        } else if p.default.is_some() && matches!(p.pat, Pat::Id(_)) {
+            for q in pos[before..].iter_mut() {
+                q.1 = "top-default";
+            }
+        }
+    }
+    if i >= pos.len() || j >= pos.len() || i == j {
+        return None;
+    }
+    let mut d2 = d.clone();
+    for p in d2.params.iter_mut() {
+        rename_pat(&mut p.pat, pos[j].0, pos[i].0);
+    }
+    Some((d2, format!("{}x{}", pos[i.min(j)].1, pos[i.max(j)].1)))
+}
+
 // ------------------------------------------------------------------------------------------------
 // family `cap`
 
@@ -2781,6 +2852,11 @@ fn compare(c: &Pending, res: &str, trace: &[String], model: &str) -> (bool, Stri
                     return (false, impl_text, format!("default values must be evaluated exactly once, in order, when the function is created: expected trace {:?}", t));
                 }
             }
+            if model == "E:compile" {
+                // not well-formed (duplicated argument name): must be rejected, with that message
+                let ok = res.starts_with("E:compile:") && res.contains("only be used once");
+                return (ok, impl_text, "an argument list that uses a name more than once must be a compile error (DuplicateArgumentName), not a panic or a silently chosen binding".into());
+            }
             (res == model, impl_text, "result / error class differs from Model/Bind.lean".into())
         }
         "cap" => {
@@ -3195,7 +3271,7 @@ fn main() {
     kvh::quiet_panics();
     let args = Args::parse();
     let mut rep = Report::new("C02", &args);
-    rep.rule = "case = one script + the same abstract case for the model. bind: function definition (0-3 required, 0-3 optional with tick()-wrapped defaults, variadic?, 0-3 captures reassigned after creation, 0-3 ids exported after the function was created and read by the body directly or through a thunk call (late-bound through the module's exports), self reference, `_`, nested tuple patterns depth<=2 with leading/trailing ellipsis, map patterns {k}, {k as v}, {k as _}) x call form (paren, paren-free, piped, instance, generator call) x argument count arity-2..arity+2 x 0-2 (thorough 0-3) packed arguments of length 0-3 at any position (count grid enumerated exhaustively for plain parameters, random for rich ones); cap: random scripts with nested (1-3 deep)/recursive closures, assignment targets read anywhere in the right-hand side; capx: random function and generator bodies over the wider syntax (block if/for/while/until, switch, match with binding patterns and guards, inline if, string interpolation, tuples, assignments nested in expressions, multi-assignment with {x} and {k as x} targets reading same-named outer variables, nested closures 1-3 deep): accessed_non_locals of the real parser = Model/CaptureX.lean, declaratively free names are captured, closure run = parameter run; late: 2-4 exported functions with 0-3 default arguments and 0-3 captures each that call functions exported later than themselves (mutually recursive countdowns, also consumed by a generator), result and tick trace computed directly from the guide; share: random histories over int/list variables, closures, defaults; gen: random generator bodies x 5 consumers. distinct = distinct request lines; non-trivial = bind: at least one parameter or capture, cap: defines a closure, share: calls a closure, gen: all".into();
+    rep.rule = "case = one script + the same abstract case for the model. bind: function definition (0-3 required, 0-3 optional with tick()-wrapped defaults, variadic?, 0-3 captures reassigned after creation, 0-3 ids exported after the function was created and read by the body directly or through a thunk call (late-bound through the module's exports), self reference, `_`, nested tuple patterns depth<=2 with leading/trailing ellipsis, map patterns {k}, {k as v}, {k as _}) x call form (paren, paren-free, piped, instance, generator call) x argument count arity-2..arity+2 x 0-2 (thorough 0-3) packed arguments of length 0-3 at any position (count grid enumerated exhaustively for plain parameters, random for rich ones); cap: random scripts with nested (1-3 deep)/recursive closures, assignment targets read anywhere in the right-hand side; capx: random function and generator bodies over the wider syntax (block if/for/while/until, switch, match with binding patterns and guards, inline if, string interpolation, tuples, assignments nested in expressions, multi-assignment with {x} and {k as x} targets reading same-named outer variables, nested closures 1-3 deep): accessed_non_locals of the real parser = Model/CaptureX.lean, declaratively free names are captured, closure run = parameter run; dup: argument lists in which one name is used twice, every pair of positions (top level, nested tuple, rest..., {x}, {k as x}, variadic, with defaults) -> compile error; repeated `_q` accepted; late: 2-4 exported functions with 0-3 default arguments and 0-3 captures each that call functions exported later than themselves (mutually recursive countdowns, also consumed by a generator), result and tick trace computed directly from the guide; share: random histories over int/list variables, closures, defaults; gen: random generator bodies x 5 consumers. distinct = distinct request lines; non-trivial = bind: at least one parameter or capture, cap: defines a closure, share: calls a closure, gen: all".into();
     let drv = if args.driver.is_empty() || args.has_flag("--no-driver") { None } else { Some(Driver::spawn(&args.driver)) };
     let mut ctx = Ctx { rt: Runtime::new(), drv, rep, pending: vec![] };
     if args.extra.windows(2).any(|w| w[0] == "--plant" && w[1] == "swap-free-args") {
@@ -3315,6 +3391,45 @@ fn main() {
         }
     }
 
+    // ---- bind: duplicated argument names, every pair of positions ---------------------------
+    let n_dup = if thorough { 20000 } else { 1500 };
+    let mut made = 0;
+    let mut tries = 0;
+    while made < n_dup && tries < 20 * n_dup {
+        tries += 1;
+        let n_req = rng.below(4);
+        let n_opt = rng.below(3);
+        let variadic = rng.chance(1, 3);
+        let n_caps_d = rng.below(2);
+        let d = gen_def(&mut rng, n_req, n_opt, variadic, n_caps_d, true);
+        let mut n_pos = vec![];
+        for p in &d.params {
+            pat_positions(&p.pat, true, &mut n_pos);
+        }
+        if n_pos.len() < 2 {
+            continue;
+        }
+        let i = rng.below(n_pos.len());
+        let j = (i + 1 + rng.below(n_pos.len() - 1)) % n_pos.len();
+        let Some((d2, kinds)) = duplicate_names(&d, i, j) else { continue };
+        let count = d2.arity();
+        let form_d = rng.below(7);
+        let c = gen_call(&mut rng, &d, count, 0, form_d);
+        ctx.rep.bump(&format!("bind:dup-arg-names:{}", kinds));
+        let mut p = bind_case(&d2, &c);
+        p.expect_trace = None;
+        p.ast = None;
+        ctx.push(p);
+        made += 1;
+        // the accepted counterpart: ignored ids may repeat (`_q` twice or more)
+        if d.params.iter().filter(|p| matches!(p.pat, Pat::Ign)).count() >= 2 {
+            let mut p = bind_case(&d, &c);
+            p.script = p.script.replace("|_,", "|_q,").replace(", _,", ", _q,").replace(", _|", ", _q|").replace(", _ =", ", _q =").replace("|_ =", "|_q =").replace("|_|", "|_q|");
+            p.ast = None;
+            ctx.rep.bump("bind:repeated-ignored-ids");
+            ctx.push(p);
+        }
+    }
     // ---- cap --------------------------------------------------------------------------------
     let n_cap = if thorough { 200000 } else { 10000 };
     for _ in 0..n_cap {
